@@ -3,6 +3,8 @@ package batching
 import (
 	"context"
 	"sync"
+
+	"reduction.dev/reduction/util/verifhook"
 )
 
 type BatchFetcher[T, R any] func(ctx context.Context, events []T) ([]R, error)
@@ -76,11 +78,13 @@ func (d *ReorderFetcher[T, R]) Flush(ctx context.Context) {
 
 // flush the current batch and then asynchronously run the `FetchBatch` callback.
 func (d *ReorderFetcher[T, R]) flush(ctx context.Context, token BatchToken) {
+	verifhook.At("rf.flush.enter")
 	d.flushMu.Lock()
 	events := d.batcher.Flush(token)
 	if d.batcher == nil {
 		panic("batcher became nil")
 	}
+	verifhook.At("rf.flush.mid", len(events))
 	if len(events) == 0 {
 		d.flushMu.Unlock()
 		return
@@ -93,11 +97,13 @@ func (d *ReorderFetcher[T, R]) flush(ctx context.Context, token BatchToken) {
 		if err != nil {
 			d.errChan <- err
 		}
+		verifhook.At("rf.buffer.add", seqNum)
 		d.buffer.Add(seqNum, result)
 		for resp := range d.buffer.Drain() {
 			for _, result := range resp {
 				d.Output <- result
 			}
 		}
+		verifhook.At("rf.drained", seqNum)
 	}()
 }
